@@ -404,6 +404,53 @@ func c13(c *Ctx) {
 		}
 	}
 
+	// the same for the decision under the write lock: a watch is left alone only when it exists AND its informer is active
+	if fn := c.method("internal/engine", "ControllerEngine", "StartWatches"); fn != nil {
+		var wl *ssa.Lookup
+		for _, a := range w.res[fn].Accesses {
+			if lk, ok := a.Instr.(*ssa.Lookup); ok && a.Field == "engine.controller.sources" && a.Weakest == locks.W && lk.CommaOk {
+				wl = lk
+			}
+		}
+		if wl == nil {
+			c.R.Unknown(load.FuncName(fn)+": write-locked re-check", c.pos(fn.Pos()), "no c.sources lookup under the write lock found")
+		} else if loop := cfgx.LoopOf(wl.Block()); loop == nil {
+			c.R.Unknown(load.FuncName(fn)+": write-locked loop", c.pos(wl.Pos()), "the re-check is not in a loop")
+		} else {
+			var existsT, activeT []cfgx.Edge
+			for _, r := range *wl.Referrers() {
+				if ex, ok := r.(*ssa.Extract); ok && ex.Index == 1 {
+					t, _ := cfgx.CondEdges(ex)
+					existsT = append(existsT, t...)
+				}
+			}
+			through := map[*ssa.BasicBlock]bool{}
+			for b := range loop {
+				for _, in := range b.Instrs {
+					if lk, ok := in.(*ssa.Lookup); ok && !lk.CommaOk && isBoolMap(lk.X.Type()) {
+						t, _ := cfgx.CondEdges(lk)
+						activeT = append(activeT, t...)
+					}
+					if _, ok := in.(*ssa.MapUpdate); ok {
+						for _, a := range w.res[fn].Accesses {
+							if a.Instr == in && a.Field == "engine.controller.sources" {
+								through[b] = true
+							}
+						}
+					}
+				}
+			}
+			if len(through) == 0 {
+				c.R.Unknown(load.FuncName(fn)+": write-locked start", c.pos(wl.Pos()), "no c.sources[wid] = … in the write-locked loop")
+			} else {
+				by1, w1 := cfgx.LoopBypass(loop, through, existsT, c.posf())
+				c.R.Check(!by1 && len(existsT) > 0, load.FuncName(fn)+": re-check leaves alone only existing watches", c.pos(wl.Pos()), "under the write lock a watch is not (re)started only over watchExists==true", "under the write lock a watch that does not exist can be left unstarted", w1...)
+				by2, w2 := cfgx.LoopBypass(loop, through, activeT, c.posf())
+				c.R.Check(!by2 && len(activeT) > 0, load.FuncName(fn)+": re-check leaves alone only active informers", c.pos(wl.Pos()), "under the write lock a watch is not (re)started only over activeInformer[gvk]==true", "under the write lock a watch whose informer is gone is left as it is: the read-locked pass saw work to do, the write-locked pass skips it, and the dead source stays registered", w2...)
+			}
+		}
+	}
+
 	c.R.Rule("R13.10", "informer tracking is atomic with the wrapped cache: every call into the embedded cache is made with InformerTrackingCache.mx held", 5,
 		"between marking an informer (in)active and the wrapped cache acting on it another goroutine sees the wrong state: a StartWatches that runs while an informer is being removed registers its handler on the informer that is about to be dropped and is never re-established")
 	{
@@ -575,6 +622,34 @@ func c13(c *Ctx) {
 			}
 			r, wit := cfgx.ReachableFromEdges(running, mu, nil, c.posf())
 			c.R.Check(!r && len(running) > 0, load.FuncName(st)+": idempotent", c.pos(mu.Pos()), "an already running controller is not started again", "Start can replace a running controller (its context and sources would leak)", wit...)
+		}
+	}
+	// the goroutine that runs a controller stops it by name only when that run ended with an error:
+	// a run that ends because it was stopped must not stop whatever carries the name by then
+	if st := c.method("internal/engine", "ControllerEngine", "Start"); st != nil {
+		n := 0
+		for _, g := range closures(st) {
+			if g == st {
+				continue
+			}
+			stops := calls(g, "(*"+xp+"internal/engine.ControllerEngine).Stop")
+			var runs []ssa.CallInstruction
+			for _, x := range cfgx.Calls(g, nil) {
+				if strings.HasSuffix(cfgx.CalleeName(x), "controller.Controller).Start") || strings.HasSuffix(cfgx.CalleeName(x), ".Start") && x.Common().IsInvoke() {
+					runs = append(runs, x)
+				}
+			}
+			for _, sp := range stops {
+				n++
+				var fail []cfgx.Edge
+				for _, r := range runs {
+					fail = append(fail, failEdges(r)...)
+				}
+				c.requireCross(site(sp)+" only after a failed run", sp, fail, "Start(ctx) of the controller returned an error")
+			}
+		}
+		if n == 0 {
+			c.R.Unknown(load.FuncName(st)+": cleanup", c.pos(st.Pos()), "the running goroutine's best-effort Stop was not found")
 		}
 	}
 	if ir := c.method("internal/engine", "ControllerEngine", "IsRunning"); ir != nil {
